@@ -1,0 +1,10 @@
+//go:build verif
+
+package byteutils
+
+// C29: byte order reversal.
+//@ func Reverse
+//@   property C29
+//@   opt noframe 1
+//@   ensures [reverse-mirrors-every-byte] len(result) == len(bytes) && (forall k int :: 0 <= k && k < len(bytes) ==> result[k] == bytes[len(bytes) - 1 - k])
+//@   loop 1 invariant i >= -1 && i < len(bytes) && len(result) == len(bytes) - 1 - i && (forall k int :: 0 <= k && k < len(result) ==> result[k] == bytes[len(bytes) - 1 - k])
